@@ -208,8 +208,16 @@ def summary(chk, crate, f):
                         if flds[-3:] == [name, "@Some", "0"] and "status_information" in show(x):
                             payloads.append(x)
                 arith = any(x[0] == "bin" for x in walk(conv))
-                others = [x for x in walk(conv) if x[0] in ("var", "upvar") and not any(x in list(walk(p_)) for p_ in payloads)]
-                good = bool(payloads) and not arith and not others
+                # every leaf of the conversion is the payload itself (or a constant): a value that arrives through
+                # another local (a helper's branches, an accumulator) is not "a conversion of the reported field"
+                inside = set()
+                for p_ in payloads:
+                    inside |= {id(y) for y in walk(p_)}
+                others = [x for x in walk(conv) if x[0] in ("var", "upvar", "path") and id(x) not in inside and
+                          not any(x == y for p_ in payloads for y in walk(p_))]
+                # calls on the way are library conversions; a function of this workspace is not taken on trust
+                local_calls = [x[1] for x in walk(conv) if x[0] == "call" and str(x[1]).startswith(("zvt_feig_terminal::", "zvt::", "zvt_builder::"))]
+                good = bool(payloads) and not arith and not others and not local_calls
                 why = show(conv)[:140] + ("" if good else " (not a pure conversion of the reported field)")
         chk.require(good, "C08-b/summary-wiring", inst,
                     "summary field %s is %s, expected a conversion of the reported StatusInformation.%s" % (name, why, name),
